@@ -68,7 +68,7 @@ pub fn key_of(list: &[DatumObs], with_ranks: bool, ghosts: Option<&[truc::record
     for d in list {
         k.extend_from_slice(&(d.offset as u16).to_le_bytes());
         k.extend_from_slice(&(d.size as u16).to_le_bytes());
-        k.push(d.align as u8 | if d.uninit { 0x80 } else { 0 });
+        k.push(d.align.trailing_zeros() as u8 | if d.uninit { 0x80 } else { 0 });
         if with_ranks {
             k.push(ids.iter().position(|i| *i == d.id).unwrap() as u8);
         }
